@@ -243,8 +243,11 @@ func c15Custom(t *testing.T, sc *world.Scenario, out *Outcome) {
 	if startRevB < maxStored {
 		out.probe("new-leader-starts-below-stored-revisions")
 	}
-	// probes on the new leader, against a healthy engine
+	// probes on the new leader, against a healthy engine (the outage below the TiKV adapter included: a lock
+	// renewal during the probes must not arm it again, and what is left of it must not meet the probes' reads)
 	w.KV.StopFaults()
+	w.KV.OnHookEffect = nil
+	w.TiKVOracleOutage = 0
 	var firstNew uint64
 	okRun := w.RunTask("c15-probe", -1, 20000, func() {
 		// an unguarded delete as the new leader's very first write: whatever revision the node starts
